@@ -72,9 +72,17 @@ CHECKS = [
         "bisect/islice/deque(maxlen) by their documented contracts; input time-ordered (the property's quantifier) is the class "
         "invariant; timedelta*float rounds half-even; the user's resampling function and the sample source are scripted collaborators",
         "contract-based deductive verification with quantified array invariants (z3)", "DESIGN.md 3 (C08)"),
+    chk("C18", "proof",
+        "Deductive proof for any set of batteries iterated in arbitrary order: loop invariants tie SoCCalculator / CapacityCalculator's "
+        "running sums to ghost recurrences written from the documented formulas; result None iff no working battery has all "
+        "metrics; SoC in [0, 100] and equal to used/total; lemmas (one by induction over the batteries): rescaled SoC bounded "
+        "and monotone, pool SoC non-decreasing in every battery's SoC, weights scale linearly with capacity.",
+        "floats as reals (math.isclose by its definition); capacity >= 0, lower <= upper limit; scale invariance of the quotient only "
+        "per battery; metric fetcher's NaN dropping and cache eviction not under contract",
+        "contract-based deductive verification: loop invariants + ghost recurrences + induction lemmas (z3, NRA)", "DESIGN.md 3 (C18)"),
 ]
 
 _PENDING = "check under construction in this session (contracts not yet written); will be claimed once its obligations discharge"
 NOT_APPLICABLE = [
     {"property_id": "C12", "reason": "formula generators are graph algorithms over networkx.DiGraph (recursive dfs, successor-set classification); no contract within reach of the VC generator expresses 'the generated formula balances for every valid graph' (DESIGN.md 4)"},
-] + [{"property_id": f"C{n:02d}", "reason": _PENDING} for n in (1, 2, 5, 6, 9, 10, 14, 15, 17, 18, 19, 20)]
+] + [{"property_id": f"C{n:02d}", "reason": _PENDING} for n in (1, 2, 5, 6, 9, 10, 14, 15, 17, 19, 20)]
